@@ -192,4 +192,53 @@ func TestC10Sequences(t *testing.T) {
 	})
 }
 
+// TestC10Idle: the "further reconciles change nothing" half, with wall-clock time passing between quiescence and the
+// final round (objects carrying mapped conditions at every level).
+func TestC10Idle(t *testing.T) {
+	st := NewStats("C10", "idle", "package install (and update) scripts in which every Widget carries a condition-map annotation, so mapped conditions travel Widget -> ObjectSet(Phase) -> ObjectDeployment -> Package; after quiescence the cluster is left idle for 1.1 s (so that the next reconciles run in a later wall-clock second) and one more full round of reconciles must perform no state-changing write; non-trivial = a mapped condition was present on the Package at quiescence")
+	CheckOrReplay(t, st, func(data []byte) (any, error) {
+		var c c10Case
+		if err := json.Unmarshal(data, &c); err != nil {
+			return nil, err
+		}
+		_, err := runC10(c.Script, c.Dist)
+		return &c, err
+	}, func(rt *rapid.T) {
+		sc := &Scenario{Prop: "C10", Pkgs: genPkgPool(rt, false)}
+		for pi := range sc.Pkgs {
+			d := &sc.Pkgs[pi]
+			have := false
+			for fi := range d.Files {
+				for oi := range d.Files[fi].Objs {
+					if d.Files[fi].Objs[oi].Kind == "Widget" {
+						d.Files[fi].Objs[oi].CondMap = true
+						have = true
+					}
+				}
+			}
+			if !have && len(d.Files) > 0 {
+				d.Files[0].Objs = append(d.Files[0].Objs, PkgObj{Kind: "Widget", Name: "ow", Phase: d.Phases[0].Name, CondMap: true})
+			}
+		}
+		sc.Steps = append(sc.Steps, Step{Op: "createPackage", I: 0, J: 0, S: rapid.SampledFrom([]string{"", "EachObject"}).Draw(rt, "chunk")}, Step{Op: "quiesce"})
+		for w := 0; w < 4; w++ {
+			sc.Steps = append(sc.Steps, Step{Op: "widget", I: w, J: 1})
+		}
+		sc.Steps = append(sc.Steps, Step{Op: "quiesce"})
+		if rapid.Bool().Draw(rt, "update") {
+			sc.Steps = append(sc.Steps, Step{Op: "editPackage", I: 1, J: rapid.IntRange(0, 1).Draw(rt, "cfg")}, Step{Op: "quiesce"})
+			for w := 0; w < 4; w++ {
+				sc.Steps = append(sc.Steps, Step{Op: "widget", I: w, J: 1})
+			}
+			sc.Steps = append(sc.Steps, Step{Op: "quiesce"})
+		}
+		c := &c10Case{Part: "idle", Script: sc, Dist: C10Disturbance{IdleMs: 1100}}
+		got, err := runC10(sc, c.Dist)
+		if got != nil {
+			st.Case(c, got.labels["mapped-condition-on-Package"] && got.labels["idle-before-final-round"], c10Labels(got.labels)...)
+		}
+		st.Report(rt, c, err)
+	})
+}
+
 var _ = engine.NSMain
